@@ -810,7 +810,7 @@ func main() {
 		{"Clear", "Caller", "Clear"}, {"ClearAll", "Caller", "ClearAll"}, {"AddTmp", "Caller", "AddTmp"},
 		{"Add", "Caller", "Add"}, {"AddBg", "Caller", "AddBg"}, {"AddHandler", "Caller", "AddHandler"},
 		{"cuidToID", "Caller", "cuidToID"}, {"recoverHandlerPanic", "", "recoverHandlerPanic"},
-		{"setEcho", "Client", "setEcho"}, {"Pong", "Commands", "Cmd_Pong"}, {"Ping", "Commands", "Cmd_Ping"}, {"handlePING", "", "handlePING"}} {
+		{"setEcho", "Client", "setEcho"}, {"reset", "state", "state_reset"}, {"Close", "ircConn", "ircConn_Close"}, {"Pong", "Commands", "Cmd_Pong"}, {"Ping", "Commands", "Cmd_Ping"}, {"handlePING", "", "handlePING"}} {
 		p.skeleton(sk, f[0], f[1], f[2])
 	}
 	cg := load(filepath.Join(*repo, "internal/ctxgroup"))
